@@ -34,6 +34,7 @@ func propC15(w *World, r *Report) {
 	checkLayoutPipeline(w, r)
 	checkBufReset(w, r)
 	RunKernFlags(w, r)
+	RunBigEndian(w, r, func(p string) bool { return strings.HasSuffix(p, "/kern") })
 	RunCursorAdvance(w, r, w.LibFuncs())
 	RunLookupZero(w, r)
 	r.Floor("cursoradvance", 1)
